@@ -105,7 +105,10 @@ class Ref:
             return self.exprv[d]
         ns = self.d(ex + "#not")
         if ns is not None:
-            return ("other", frozenset(self.exprv[i] for i in ns))
+            excl = frozenset(self.exprv[i] for i in ns)
+            if self.dflt.get("other_is_group") and "Group" not in excl and ex.count(".Group.0.expr") < self.dflt.get("gd", 1):
+                return "Group"      # completion: the member of the lumped class the table does distinguish
+            return ("other", excl)
         return self.dflt.get("expr")
 
     def meta_form(self, mb):
@@ -137,6 +140,8 @@ class Ref:
         """Lit::Str at lb parsed as ty"""
         pname = "parse<%s>(%s.Str.0)" % (ty, lb)
         pd = self.d(pname + "#d")
+        if pd is None:
+            pd = self.dflt.get("parse")
         if pd is None:
             self.open = "parse outcome of %s" % pname
             return None
@@ -700,9 +705,45 @@ def msg_of(exp):
     return None
 
 
+# targets whose conversion recurses through invisible groups itself: two nested groups already in the quick tier (a conversion that
+# peels one level only is wrong from the second level on)
+DEEP_GROUPS = ("expr", "callable", "path", "ident")
+
+
+def replay_completion(ck, native, prog, l, tg, dflt, what):
+    """complete the input parts the path never inspected with `dflt`, ask the table and the real build; 'bad' (reported) / 'ok' / 'undecided'"""
+    ref2 = Ref(prog, l, tg, dflt)
+    exp2 = ref2.meta("item*")
+    if exp2 is None:
+        return "undecided"
+    wit2 = Wit(ref2, tg)
+    wit2.model = lambda l=l: ck.model_of(l.pc)
+    req2 = "(conv %s meta %s)" % (tg, sx_str(wit2.meta("item*")))
+    nat = native.ask(req2)
+    r = nat.get("result", {}) if isinstance(nat, dict) else {}
+    if wit2.bad or (isinstance(r, dict) and "parse_error" in r):
+        return "undecided"
+    if exp2[0] in ("err", "synerr"):
+        agree = isinstance(r, dict) and "err" in r and len(r["err"]) == 1
+        m = msg_of(exp2)
+        if agree and m and not r["err"][0]["msg"].startswith(m):
+            agree = False
+    else:
+        agree = isinstance(r, dict) and "ok" in r
+        if agree and exp2[0] == "parsed" and isinstance(r["ok"], str) and r["ok"].startswith('"'):
+            agree = False       # the string came back as a string literal, not as the parse of its contents
+    if not agree:
+        ck.report("%s:ignored-input:%s" % (tg, what), "the conversion never inspects the %s although the outcome must depend on it" % what,
+                  {"property": "C13", "crate": "hsyn", "request": req2, "expected": repr(exp2)[:300], "observed": nat})
+        return "bad"
+    return "ok"
+
+
 def target_job(ck, prog, natbin, tg, quick):
     native = Native(natbin)
-    I = Interp(prog, models.all_models(OPTS), Pol(1 if quick else 2, 2, numeric=(VEC_ELEM.get(tg) == "num")), timeout_ms=ck.timeout_ms)
+    gdepth = 2 if (not quick or tg in DEEP_GROUPS) else 1
+    gidx = [v["name"] for v in prog.find_ty("syn::Expr").adt["variants"]].index("Group")
+    I = Interp(prog, models.all_models(OPTS), Pol(gdepth, 2, numeric=(VEC_ELEM.get(tg) == "num")), timeout_ms=ck.timeout_ms)
     e = prog.entry("entry_%s_meta" % tg)
     leaves = I.explore(e, [Lazy("item", e.local_tys[1])])
     ck.absorb(I, leaves, "entry_%s_meta" % tg)
@@ -733,31 +774,15 @@ def target_job(ck, prog, natbin, tg, quick):
             undecided = False
             replayed = 0
             for dflt in ({"expr": "Closure", "lit": "Int", "nseg": 2, "meta": 1, "lc": 0}, {"expr": "Binary", "lit": "Bool", "nseg": 1, "meta": 2, "lc": 1},
-                         {"expr": "Binary", "lit": "Bool", "nseg": 1, "meta": 2, "lc": 0}):
-                ref2 = Ref(prog, l, tg, dflt)
-                exp2 = ref2.meta("item*")
-                if exp2 is None:
-                    undecided = True
-                    continue
-                wit2 = Wit(ref2, tg)
-                wit2.model = lambda l=l: ck.model_of(l.pc)
-                req2 = "(conv %s meta %s)" % (tg, sx_str(wit2.meta("item*")))
-                nat = native.ask(req2)
-                r = nat.get("result", {}) if isinstance(nat, dict) else {}
-                if wit2.bad or (isinstance(r, dict) and "parse_error" in r):
+                         {"expr": "Binary", "lit": "Bool", "nseg": 1, "meta": 2, "lc": 0},
+                         # a quoted value the path never looked at (e.g. below invisible groups it does not open): its contents must come back parsed
+                         {"expr": "Lit", "lit": "Str", "nseg": 1, "meta": 2, "lc": 0, "parse": 0}):
+                verdict = replay_completion(ck, native, prog, l, tg, dflt, ref.open)
+                if verdict == "undecided":
                     undecided = True
                     continue
                 replayed += 1
-                if exp2[0] in ("err", "synerr"):
-                    agree = isinstance(r, dict) and "err" in r and len(r["err"]) == 1
-                    m = msg_of(exp2)
-                    if agree and m and not r["err"][0]["msg"].startswith(m):
-                        agree = False
-                else:
-                    agree = isinstance(r, dict) and "ok" in r
-                if not agree:
-                    ck.report("%s:ignored-input:%s" % (tg, ref.open), "the conversion never inspects the %s although the outcome must depend on it" % ref.open,
-                              {"property": "C13", "crate": "hsyn", "request": req2, "expected": repr(exp2)[:300], "observed": nat})
+                if verdict == "bad":
                     bad_found = True
                     break
             undecided = undecided and replayed == 0
@@ -771,6 +796,16 @@ def target_job(ck, prog, natbin, tg, quick):
                     ck.reach("uniform-in-ignored-part")
             continue
         good, why = match(ck, l, exp, got_ok, got.get("0") if isinstance(got, dict) else None, errs)
+        if good and any(k.endswith("#not") and (k[:-4].endswith(".value") or k[:-4].endswith(BOX) or k[:-4].endswith("]")) and gidx not in ns
+                        and k.count(".Group.0.expr") < gdepth for k, ns in l.decisions.items()):
+            # the path treats "every other expression form" alike and that class contains the invisible group, which the table does
+            # distinguish: judge the sub-class "a group around a quoted value" by completion and replay
+            if replay_completion(ck, native, prog, l, tg, {"other_is_group": True, "gd": gdepth, "expr": "Lit", "lit": "Str", "nseg": 1, "meta": 2, "lc": 0, "parse": 0},
+                                 "invisible group inside a lumped expression class") == "bad":
+                ck.obligations += 1
+                continue
+            ck.ok()
+            ck.reach("lumped-class-with-group")
         ck.reach(exp[0])
         if exp[0] == "err":
             ck.reach("err:" + exp[1])
@@ -870,7 +905,7 @@ def prepare(ck):
     natbin = build.build_native("hsyn")
     only = os.environ.get("VERIF_TARGETS")
     tgs = only.split(",") if only else TARGETS
-    ck.bounds = {"targets": tgs, "invisible_group_nesting": "0..%d" % (1 if quick else 2), "list / array elements": "0..2", "path_segments": "1..2",
+    ck.bounds = {"targets": tgs, "invisible_group_nesting": "0..2" if not quick else "0..2 for %s, 0..1 for the other targets" % " / ".join(DEEP_GROUPS), "list / array elements": "0..2", "path_segments": "1..2",
                  "expression forms": "all %d syn::Expr variants" % 40, "literal kinds": "all syn::Lit variants", "numeric array elements": "single digit (values are C11's subject)"}
     ck.outside = ["token-for-token equality of syn's parser and printer (the parse of a string literal is an uninterpreted outcome; sampled witnesses compare printed tokens natively)",
                   "the remaining from_syn_parse instantiations (TypeBareFn, TypeGroup, .. - same macro body as Type / TypePath / TypeArray)", "longer lists / deeper groups"]
